@@ -11,7 +11,9 @@ from decimal import Decimal
 sys.path.insert(0, os.path.dirname(os.path.dirname(os.path.abspath(__file__))))
 from vf.common import *
 from vf import build as vbuild, proc
-from ref import tx as rtx
+from ref import tx as rtx, secp, taproot, sign as rsign
+from ref.script import OP_1
+import re
 
 PROP = 'C13'
 
@@ -159,6 +161,42 @@ def worker(job):
                 for big in (b'\xfd\xff\xff', b'\xfe\xff\xff\xff\x01', b'\xff' + b'\xff' * 8, bytes([min(252, cnt + 1)])):
                     m = raw[:pos] + big + raw[pos + 1:]
                     cases.append(('oversized-count', m.hex(), m))
+            # EVERY length / count field of the transaction, one at a time, in each longer-than-necessary encoding (all fields whose
+            # value sits at an encoding boundary - 252, 253, 65535, 65536 - and a sample of the others)
+            vals = []
+            orig_cs = rtx.ser_cs
+
+            def rec(v):
+                vals.append(v)
+                return orig_cs(v)
+            rtx.ser_cs = rec
+            try:
+                rtx.ser_tx(t)
+            finally:
+                rtx.ser_cs = orig_cs
+            pick = [k for k, v in enumerate(vals) if v in (252, 253, 0xffff, 0x10000)] + [rng.randrange(len(vals)) for _ in range(3)]
+            for k in sorted(set(pick)):
+                v = vals[k]
+                forms = []
+                if v < 253:
+                    forms.append(b'\xfd' + struct.pack('<H', v))
+                if v <= 0xffff:
+                    forms.append(b'\xfe' + struct.pack('<I', v))
+                forms.append(b'\xff' + struct.pack('<Q', v))
+                for form in forms[:2]:
+                    cnt = [0]
+
+                    def sub(x, k=k, form=form, cnt=cnt):
+                        i = cnt[0]
+                        cnt[0] += 1
+                        return form if i == k else orig_cs(x)
+                    rtx.ser_cs = sub
+                    try:
+                        m = rtx.ser_tx(t)
+                    finally:
+                        rtx.ser_cs = orig_cs
+                    if len(m) < 200000:
+                        cases.append(('non-canonical-size/field-value-%s' % (v if v in (252, 253, 0xffff, 0x10000) else 'other'), m.hex(), m))
             # random single-byte corruption (may or may not stay well-formed: the oracle decides)
             j = rng.randrange(len(raw))
             m = raw[:j] + bytes([raw[j] ^ (1 << rng.randrange(8))]) + raw[j + 1:]
@@ -329,6 +367,57 @@ def binary_worker(job):
     return part.dump()
 
 
+RTX = re.compile(r'Resulting transaction: ([0-9a-f]+)')
+
+
+def tap_worker(job):
+    """tap parses a spending transaction, converts it to a mutable one, adds a witness and prints it again: every field that is
+    not the witness of the spent input must come back exactly as it was encoded"""
+    bindir, idx, n = job
+    rng = sub_rng(PROP, 'tap', idx)
+    part = Partial()
+    wd = scratch('c13t')
+    tap = os.path.join(bindir, 'tap')
+    try:
+        for i in range(n):
+            ikey = secp.xonly_from_sec(rng.randrange(1, 2 ** 200))
+            script = bytes([OP_1])
+            q, par = taproot.output_key(ikey, taproot.tapleaf_hash(script))
+            nfo = rng.choice([1, 2, 3])
+            fvout = rng.randrange(nfo)
+            fouts = [(rng.choice([1000, 77777, 0, 21 * 10 ** 14]), rng.choice([b'\x51', b'', bytes(rng.randrange(256) for _ in range(rng.choice([22, 34, 252, 253])))])) for _ in range(nfo)]
+            fouts[fvout] = (rng.choice([546, 100000, 21 * 10 ** 14]), rsign.spk_p2tr(q))
+            fund = rsign.funding_tx(rng, fouts)
+            tx = rsign.spending_tx(rng, [(rtx.txid(fund), fvout)], nout=rng.choice([1, 2, 3]), version=rng.choice([1, 2, 2, 3, 0, -1, 0x7fffffff, -0x80000000]),
+                                   locktime=rng.choice([0, 1, 499999999, 500000000, 0xffffffff]), sequences=[rng.choice([0xffffffff, 0xfffffffe, 0, 5, 0x80000000])])
+            tx.wit = None
+            r = proc.run([tap, '--tx=' + rtx.ser_tx(tx).hex(), '--txin=' + rtx.ser_tx(fund).hex(), ikey.hex(), '1', '0x' + script.hex(), '0'], wd, mode='pipe', timeout=60)
+            part.evaluations += 1
+            wit = dict(kind='tap-roundtrip', tx=rtx.ser_tx(tx).hex(), txin=rtx.ser_tx(fund).hex(), internal_key=ikey.hex())
+            if r.abnormal:
+                part.violation('tap:' + r.crash_key('tap'), dict(wit, run=r.brief()))
+                continue
+            m = RTX.search(r.stdout.decode('latin1'))
+            if r.rc != 0 or not m:
+                part.violation('tap-refuses-wellformed-transaction', dict(wit, run=r.brief()))
+                continue
+            try:
+                rt = rtx.parse_tx(bytes.fromhex(m.group(1)))
+            except Exception:
+                part.violation('tap-prints-unparsable-transaction', dict(wit, got=m.group(1)[:300]))
+                continue
+            for nm, a, b in (('version', tx.version, rt.version), ('locktime', tx.locktime, rt.locktime), ('inputs', [list(v) for v in tx.vin], [list(v) for v in rt.vin]), ('outputs', list(tx.vout), list(rt.vout))):
+                if a != b:
+                    part.violation('tap-roundtrip-field-differs:' + nm, dict(wit, want=str(a)[:200], got=str(b)[:200]))
+                    break
+            else:
+                part.count('binary', 'tap-roundtrip-fields-equal')
+                part.nontrivial.add(nt_hash('tap', rtx.ser_tx(tx)))
+    finally:
+        cleanup_scratch(wd)
+    return part.dump()
+
+
 def main():
     ap = argparse.ArgumentParser()
     ap.add_argument('--tier', default=os.environ.get('VERIF_TIER', 'quick'))
@@ -348,10 +437,12 @@ def main():
         rep.merge(r)
     for r in parallel(binary_worker, [(bindir, i, 30 if not th else 150) for i in range(16)]):
         rep.merge(r)
+    for r in parallel(tap_worker, [(bindir, i, 12 if not th else 150) for i in range(16)]):
+        rep.merge(r)
     return rep.finish(
         rule='transactions with 0..6 inputs/outputs, script lengths at 0/1/252/253/254/65535/65536, witness present/absent/mixed, negative and extreme versions/values, hex with embedded whitespace; for each: every truncation (all prefixes for small ones), '
              'trailing bytes, every flag-byte corruption, non-canonical and oversized compact sizes, a random bit flip (oracle decides whether it stays well-formed); amount prefixes: decimal strings with 0..8 fractional digits from a boundary pool and random, '
-             'plus out-of-domain forms; btcdeb -v --tx on a sample (txid display / rejection with diagnostic). non-trivial = distinct encoding judged (accepted with all fields equal, or rejected with a diagnostic)',
+             'plus out-of-domain forms; btcdeb -v --tx on a sample (txid display / rejection with diagnostic); tap --tx/--txin round trips (versions 1/2/3/0/-1/extremes, lock times, sequences, 1..3 outputs: every non-witness field of the "Resulting transaction" equals the input). non-trivial = distinct encoding judged (accepted with all fields equal, or rejected with a diagnostic)',
         assumptions=['ref/tx.py is the transaction codec (anchored on the doc/txs chain data: byte-exact round trip and documented txids)'],
         min_events=1000)
 
